@@ -79,14 +79,15 @@ TREE_INIT = dict(
         "self.g_src == root and self.g_index == counter",
     ],
     modifies=["self.root", "self.children", "self.counter", "self.g_counter", "self.g_src", "self.g_index"],
-    ghost_pre=["lemma_psum_mono(sols(root), len(root.possibilities))"],
+    ghost_pre=["lemma_psum_mono(sols(root), len(root.possibilities))",
+               "lemma_psum_unfold(sols(root), 0)"],
     ghost_end=["self.g_src = root", "self.g_index = old(counter)"],
     loops={0: {"inv": ["0 <= possibility and possibility < len(root.possibilities)",
                        "counter == old(counter) - psum(sols(root), possibility)",
                        "solutions == root.possibilities[possibility].solutions",
-                       "counter >= 0",
-                       # (hint: names the next prefix sum so that its definition is instantiated)
-                       "psum(sols(root), possibility + 1) == psum(sols(root), possibility) + solutions"],
+                       "counter >= 0"],
+               # psum(.., possibility + 1) = psum(.., possibility) + solutions, used by every path below
+               "ghost_head": ["lemma_psum_unfold(sols(root), possibility)"],
                "dec": "len(root.possibilities) - possibility"}},
     macros=MACROS, preds=PREDS,
     properties=("C03",),
@@ -143,7 +144,7 @@ contract("parglare.trees.Tree._enumerate_children",
          ghost_at={"new_counter = counter // factor": [
              # the factor the code computes IS the product of the weights to the right of idx
              "assert factor == prod(weights, idx + 1, len(weights))",
-             "assert prod(weights, idx, len(weights)) == weights[idx] * factor",
+             "lemma_prod_unfold(weights, idx, len(weights))",
              "lemma_div_bound(counter, weights[idx], factor)"]},
          loops={0: {"ghost_init": ["acc = 0"],
                     # (factor is the spec product by the ghost assertion above, so this is not vacuous)
